@@ -4,9 +4,11 @@ CONSTANTS
   Vals = {"v0", "v1"}
   NChunks = 2
   AutoChoices = {{"P1"}}
-  HwChoices = {{}, {"P2"}}
+  HwChoices = {{"P2"}}
+  NoDefChoices = {{"P1"}}
+  CfgVals = {"v1"}
   Faults = {"crash", "ioerror"}
-  Corruptions = {"missing", "notjson", "notdict", "extra", "bad", "drop"}
+  Corruptions = {"missing", "notjson", "notdict", "extra", "bad", "drop", "wipe"}
   Dev = {}
 INVARIANT TypeOK
 INVARIANT Atomic
@@ -17,4 +19,6 @@ PROPERTY SaveCompletes
 PROPERTY RoundTrip
 PROPERTY Precedence
 PROPERTY Tolerant
+PROPERTY ForeignUntouched
+PROPERTY ReloadKeeps
 CHECK_DEADLOCK FALSE
